@@ -606,7 +606,7 @@ func verifC23Class(op, impl string) string {
 func TestVerifC23(t *testing.T) {
 	defer verifC23Close()
 	verifutil.Main(t, &verifutil.Harness{
-		ID: "C23", Exec: verifC23Exec, Gen: verifC23Gen, Quick: 1200, Thorough: 20000,
+		ID: "C23", Exec: verifC23Exec, Gen: verifC23Gen, Quick: 900, Thorough: 12000,
 		Class:      verifC23Class,
 		NonTrivial: func(op, impl string) bool { return !strings.HasPrefix(op, "reset") },
 	})
